@@ -232,6 +232,12 @@ def main():
     by_solver = {}
     for r in discharged:
         by_solver[r["solver"] or "?"] = by_solver.get(r["solver"] or "?", 0) + 1
+    second = {}
+    for r in recs:
+        if r.get("second"):
+            second[r["second"]] = second.get(r["second"], 0) + 1
+    if not second:
+        second = {"note": "quick tier: no re-check; the thorough tier re-checks every discharged obligation with cvc5 1.0.3 / z3 4.8.12"}
     trusted = sorted({f"library contract: {n}" for n in lib_used} | {f"dropped (assumed effect-free): {n}" for n in dropped}
                      | set(getattr(mod, "TRUSTED", [])) | {"pyvc VC generator (encoding of Python semantics, DESIGN.md 2.3)", "z3 5.1.0 / cvc5 1.0.3"})
     ev = {
@@ -243,6 +249,7 @@ def main():
             "checker_cmd": f"python3-vt check.py {prop} --tier {tier}",
             "trusted_base": trusted,
             "discharged_by_backend": by_solver,
+            "second_backend_recheck": second,
             "solver_seconds": round(solver_s, 2),
             "paths_explored": paths,
             "functions": [{"qualname": q, **{k: v for k, v in info.items()}} for q, info in sorted(functions.items())],
